@@ -12,6 +12,7 @@ import (
 	"fmt"
 	"runtime/debug"
 	"sync"
+	"sync/atomic"
 	"syscall"
 	"unsafe"
 
@@ -56,6 +57,52 @@ type Task struct {
 	Stack string
 	// Yields counts the yield points this task passed.
 	Yields int
+	// soft yield points (instrumented builds only): every softStride-th point at phase softPhase is
+	// taken, up to softBudget of them.
+	softStride, softPhase, softBudget int
+	softCount, SoftTaken              int
+}
+
+// SoftCfg selects which of a task's soft yield points (statement boundaries of the instrumented
+// library, see cmd/instr) become scheduler hand-offs. It is drawn before the tasks start.
+type SoftCfg struct{ Stride, Phase, Budget int }
+
+// DrawSoft draws the soft-yield configuration of n tasks.
+func DrawSoft(t *tape.Tape, n int) []SoftCfg {
+	t.Begin("soft")
+	defer t.End()
+	out := make([]SoftCfg, n)
+	strides := []int{1, 2, 3, 5, 8, 13, 30, 100, 0}
+	for i := range out {
+		st := strides[t.Intn("soft.stride", len(strides))]
+		c := SoftCfg{Stride: st, Budget: 200 + t.Intn("soft.budget", 2800)}
+		if st > 0 {
+			c.Phase = t.Intn("soft.phase", st)
+		}
+		out[i] = c
+	}
+	return out
+}
+
+// curTask is the task currently released by a scheduler (nil outside Run). It is written by the
+// scheduler goroutine and read by the released task through atomics: that orders the scheduler
+// before the task, never one task before another, so the race detector's view of the system
+// under test is unchanged.
+var curTask unsafe.Pointer
+
+// SoftYield is the hook behind verifyield.Y(): a hand-off point between two statements of the
+// instrumented library. Outside a scheduled section it does nothing.
+func SoftYield() {
+	t := (*Task)(atomic.LoadPointer(&curTask))
+	if t == nil {
+		return
+	}
+	t.softCount++
+	if t.softStride <= 0 || t.SoftTaken >= t.softBudget || t.softCount%t.softStride != t.softPhase {
+		return
+	}
+	t.SoftTaken++
+	t.Yield()
 }
 
 // Yield parks the calling task and lets the scheduler pick who runs next. It must only be
@@ -82,6 +129,8 @@ type Sched struct {
 	// MaxDraws bounds the number of scheduling decisions drawn from the tape; afterwards the
 	// lowest-numbered runnable task always continues.
 	MaxDraws int
+	// Soft configures the soft yield points per task (instrumented builds).
+	Soft []SoftCfg
 	// Trace is the sequence of task choices (for interleaving signatures).
 	Trace    []uint8
 	Switches int
@@ -105,6 +154,9 @@ func (s *Sched) Run(fns []func(*Task)) []*Task {
 	s.tasks = nil
 	for i := range fns {
 		t := &Task{ID: i, sched: s}
+		if i < len(s.Soft) {
+			t.softStride, t.softPhase, t.softBudget = s.Soft[i].Stride, s.Soft[i].Phase, s.Soft[i].Budget
+		}
 		if err := syscall.Pipe(t.wake[:]); err != nil {
 			panic("sched: pipe: " + err.Error())
 		}
@@ -173,12 +225,14 @@ func (s *Sched) Run(fns []func(*Task)) []*Task {
 		if len(s.Trace) < 1<<16 {
 			s.Trace = append(s.Trace, uint8(next))
 		}
+		atomic.StorePointer(&curTask, unsafe.Pointer(s.tasks[next]))
 		rawWrite(s.tasks[next].wake[1], 'g')
 		if st := rawRead(s.ctl[0]); st == 'd' {
 			done[next] = true
 			live--
 		}
 	}
+	atomic.StorePointer(&curTask, nil)
 	s.t.End()
 	wg.Wait()
 	for _, t := range s.tasks {
